@@ -15,12 +15,12 @@ masks + cos(x)-1 cancellation; see docs/notes/C10.md).  A failure with that caus
 with 0 < |d*dt| < 1e-4 and (ii) the implementation with the segment integral replaced by its exact value passes
 the same test -- but it is no longer a known finding: it would be a regression and is reported as a violation.
 
-Tolerance: 1e-6 of the largest entry of the frequency slice + 2 x the error budget
-sum_g eps dt_g^2 A_g^2 (A_g = max_ak sum_ij |X^g_ak(i,j)|), eps = 2 [thr2 (1/2 + thr2/4) + 2u/thr2]: the code replaces
-denominators with |x dt| <= thr2 = 1e-8 by their limit (truncation, theorem C10_soi_bound / C10_F2_bound) and divides
-by denominators down to thr2/dt (amplification of the evaluation error u of the buffers by 2/thr2, theorems
-C10_case1_amplification / C10_case2_amplification; u = 4 ulp assumed).  This absolute error does not shrink when the
-slice is small by cancellation between segments.
+Tolerance: 1e-8 of the largest entry of the frequency slice + 2 x the error budget sum_g eps dt_g^2 A_g^2
+(A_g = max_ak sum_ij |X^g_ak(i,j)|), eps = 2 [thr2^2 (3/8 + thr2/4) + u (4/thr2 + 1/2)] ~ 8e-10: the code replaces
+denominators with |x dt| <= thr2 = 1e-5 by their limit plus first-order term (truncation, theorems C10_soi_bound /
+C10_F2_bound) and divides by denominators down to thr2/dt (amplification of the evaluation error u of the buffers,
+theorems C10_case1_amplification / C10_case2_amplification; u = 4 ulp assumed).  This absolute error does not shrink
+when the slice is small by cancellation between segments.
 """
 import re
 import numpy as np
@@ -35,21 +35,21 @@ from ..common import carr_lit, rarr_lit, rvec_lit
 ID = 'C10'
 TRUSTED = ['numpy.linalg.eigh is an oracle: its output is validated per case in interval arithmetic '
            '(H V = V D, V^dagger V = 1, residual <= 1e-11*scale) and passed to the model',
-           'floating-point rounding of the implementation is absorbed in the comparison tolerance (1e-6 of the largest '
+           'floating-point rounding of the implementation is absorbed in the comparison tolerance (1e-8 of the largest '
            'entry of the frequency slice + 2 x the budget sum_g eps dt_g^2 A_g^2, eps from the proved truncation bound and the '
-           'proved amplification 2u/thr2 of an ASSUMED evaluation accuracy u = 4 ulp of sin/cos/divide), not proved',
+           'proved amplification u(4/thr2+1/2) of an ASSUMED evaluation accuracy u = 4 ulp of sin/cos/divide), not proved',
            'classification of a failure as the known near-resonance cancellation uses a 90-digit decimal evaluation '
            'of the segment integral (harness code, tools/ffv/props/c10.py)']
 ASSUMPTIONS = ['piecewise-constant pulses with d<=3, <=3 segments, <=2 noise operators, Hermitian bases in the sampled '
                'correspondence; theorems are size-independent',
                'F2_plus_adjoint is exact only where no first-order segment integral is on its Taylor branch '
-               '(hypothesis of the theorem); the sampled predicate uses 1e-6']
-REL_TOL = 1e-6
-THR2 = 1e-8             # case-selection threshold of _second_order_integral (tie: thr_numeric__second_order_integral)
+               '(hypothesis of the theorem); where it is, the sampled predicates add thr (sum_g dt_g A_g)^2 = 1e-7 x bound']
+REL_TOL = 1e-8
+THR2 = 1e-5             # case-selection threshold of _second_order_integral (tie: thr_numeric__second_order_integral)
 U_EVAL = 4 * 2.0 ** -52  # assumed accuracy (in units of dt) of the evaluated buffers frc1, frc2, dt*exp(i x dt)
 # per-entry error budget of the segment integral in units of dt^2, both components:
-#   truncation thr2 (1/2 + thr2/4)  [C10_soi_bound]  +  amplification 2u/thr2  [C10_case1/2_amplification]
-ENTRY_EPS = 2 * (THR2 * (0.5 + THR2 / 4) + 2 * U_EVAL / THR2)
+#   truncation thr2^2 (3/8 + thr2/4)  [C10_soi_bound]  +  amplification u (4/thr2 + 1/2)  [C10_case1/2_amplification]
+ENTRY_EPS = 2 * (THR2 * THR2 * (0.375 + THR2 / 4) + U_EVAL * (4 / THR2 + 0.5))
 KNOWN_SIG = 'c10-near-resonance-cancellation'
 SMALL = 1e-4            # window of the known finding: 0 < |d*dt| < SMALL for one of the three denominators
 
@@ -262,8 +262,31 @@ def budget(p):
 
 
 def tol_of(p, Fo):
-    """absolute tolerance for a frequency slice: 1e-6 of its largest entry + twice the proved/assumed error budget"""
+    """absolute tolerance for a frequency slice: 1e-8 of its largest entry + twice the proved/assumed error budget"""
     return REL_TOL * max(np.abs(Fo).max(), 1e-300) + 2 * budget(p)
+
+
+FOI_THR = 1e-7          # threshold of the first-order integral (tie: thr_numeric__first_order_integral)
+
+
+def foi_budget(p, w):
+    """comparisons with the EXACT integral / identity: the cross-segment terms use the first-order integral, which
+    returns dt where 0 < |x dt| <= 1e-7 (relative error <= thr/2, C01_foi_taylor_bound); then add thr (sum_g dt_g A_g)^2"""
+    hit = False
+    for g, dt in enumerate(p.dt):
+        x = w + np.subtract.outer(p.eigvals[g], p.eigvals[g])
+        hit = hit or bool(((x * dt != 0) & (np.abs(x * dt) <= FOI_THR)).any())
+    if not hit:
+        return 0.0
+    basis = p.basis.view(np.ndarray)
+    tot = 0.0
+    for g, dt in enumerate(p.dt):
+        V, Q = p.eigvecs[g], p.propagators[g]
+        W = Q.conj().T @ V
+        BT = np.array([W.conj().T @ C @ W for C in basis])
+        NT = np.array([p.n_coeffs[a, g] * (V.conj().T @ p.n_opers[a] @ V) for a in range(len(p.n_opers))])
+        tot += dt * (np.abs(np.einsum('aij,kji->akij', NT, BT)).sum(axis=(2, 3)).max() if len(NT) and len(BT) else 0.0)
+    return FOI_THR * tot * tot
 
 
 def slice_err(A, Bq, o):
@@ -280,19 +303,21 @@ def predicates(p, om, F2, Fgen, Fq):
             continue
         S = F2[..., o] + F2[..., o].conj().transpose(1, 0, 3, 2)
         sc = max(np.abs(Fgen[..., o]).max(), np.abs(F2[..., o]).max(), 1e-300)
-        tol = 2 * tol_of(p, max(np.abs(Fgen[..., o]).max(), np.abs(F2[..., o]).max()))
+        tol = 2 * tol_of(p, max(np.abs(Fgen[..., o]).max(), np.abs(F2[..., o]).max())) + 2 * foi_budget(p, om[o])
         e = np.abs(S - Fgen[..., o]).max()
         if e > tol:
             bad.append((o, 'adjoint', 'F2 + conj(F2^T) differs from the generalized filter function: rel %.3g' % (e / sc)))
         if Fq is not None:
             e = np.abs(F2[..., o] - Fq[..., o]).max()
-            if e > tol_of(p, max(np.abs(F2[..., o]).max(), np.abs(Fq[..., o]).max())):
+            if e > tol_of(p, max(np.abs(F2[..., o]).max(), np.abs(Fq[..., o]).max())) + foi_budget(p, om[o]):
                 bad.append((o, 'integral', 'F2 differs from nested quadrature of the defining integral: rel %.3g' % slice_err(F2, Fq, o)))
     return bad
 
 
 # ---------------------------------------------------------------- generators
-DELTAS = [1e-12, -1e-12, 1e-10, 1e-9, -1e-9, 0.9e-8, 1e-8, -1.1e-8, 1e-7, -1e-7, 1e-6, -1e-6, 1e-5, 1e-4, -1e-4, 1e-3, -1e-3]
+# values at the two thresholds (1e-7 first order, 1e-5 second order) are taken just below / above: exactly at a threshold the
+# binary64 product x*dt and the exact product of the model may fall on different sides (not a defect)
+DELTAS = [1e-12, -1e-12, 1e-10, 1e-9, -1e-9, 1e-8, -1e-8, 0.9e-7, -1.1e-7, 1e-6, -1e-6, 0.9e-5, -1.1e-5, 1e-4, -1e-4, 1e-3, -1e-3]
 
 
 def ladder_pulse(r, G):
@@ -442,7 +467,7 @@ def run_cases(ctx, cases, failures, samples=None):
                 test = lambda Fx: not predicates(p, np.array([w]), Fx, Fg1, None)
             elif obs == 'integral':
                 Fq1 = Fq[..., o:o + 1]
-                test = lambda Fx: np.abs(Fx - Fq1).max() <= tol_of(p, max(np.abs(Fx).max(), np.abs(Fq1).max()))
+                test = lambda Fx: np.abs(Fx - Fq1).max() <= tol_of(p, max(np.abs(Fx).max(), np.abs(Fq1).max())) + foi_budget(p, w)
             else:
                 test = None
             inp1 = dict(inp, omega=np.array([w]), freq_class=ft[o])
@@ -572,7 +597,7 @@ def replay(ctx, rep):
     with exact_integral():
         F2x = impl_F2(p, om, 'fresh')
     for o in range(len(om)):
-        if np.isfinite(F2).all() and slice_err(F2, F2x, o) > REL_TOL:
+        if np.isfinite(F2).all() and np.abs(F2[..., o] - F2x[..., o]).max() > tol_of(p, max(np.abs(F2[..., o]).max(), np.abs(F2x[..., o]).max())):
             msgs.append('F2 at omega=%r differs from the evaluation with the exact segment integral: rel %.3g' % (
                 float(om[o]), slice_err(F2, F2x, o)))
     if msgs:
